@@ -461,6 +461,15 @@ class Schema:
             d = ip.path.branch(self.kinds.is_any(v.ref, cands), f"isinstance({v.ref},{'|'.join(names)})")
             if d and len(cands) == 1:
                 self.learn_kind(ip, v.ref, cands[0])
+            elif d and len(cands) <= 4:
+                # a handful of exact classes: decide which one, so that the spec functions parked on the object unfold
+                # (left undecided, a goal about it could be refuted by a model that no class admits)
+                for cand in cands[:-1]:
+                    if ip.path.branch(self.kinds.is_kind(v.ref, cand), f"class of {v.ref} is {cand}"):
+                        self.learn_kind(ip, v.ref, cand)
+                        return d
+                ip.path.assume(self.kinds.is_kind(v.ref, cands[-1]))
+                self.learn_kind(ip, v.ref, cands[-1])
             return d
         if isinstance(v, SOpt):
             if ip.path.branch(v.isnone, "is None"):
